@@ -19,18 +19,18 @@ import (
 
 type PnftDenom struct {
 	ID, Name, Symbol, Desc, Uri, UriHash, Data string
-	Owner     string // as spelled when it was set
-	OwnerAddr []byte
-	Handovers int
+	Owner                                      string // as spelled when it was set
+	OwnerAddr                                  []byte
+	Handovers                                  int
 }
 
 type TokenKey struct{ Denom, ID string }
 
 type PnftToken struct {
 	Denom, ID, Name, Desc, Uri, UriHash, Data, Creator string
-	CreatedAt                                         time.Time
-	Owner                                             []byte // address bytes
-	Transfers                                         int
+	CreatedAt                                          time.Time
+	Owner                                              []byte // address bytes
+	Transfers                                          int
 }
 
 type PnftModel struct {
